@@ -934,6 +934,14 @@ func (env *Env) elabCall(x *SCall) Term {
 		}
 		vc.decl("allocated0", "(declare-fun allocated0 (Int) Bool)")
 		return boolTerm(fmt.Sprintf("(and (not (= %s 0)) (not (allocated0 %s)))", r, r))
+	case "bevalue":
+		// bevalue(s): big-endian value of byte slice s (abstract; see the SetBytes model)
+		a := env.elab(x.Args[0])
+		if a.Sort != "Slice" {
+			efail("bevalue wants a slice")
+		}
+		vc.decl("bebytes", "(declare-fun bebytes ((Array Int Int) Int Int) Int)")
+		return mathInt(fmt.Sprintf("(bebytes (select %s (s.arr %s)) (s.off %s) (s.len %s))", env.curHeap()("E$uint8", "(Array Int (Array Int Int))"), a.S, a.S, a.S))
 	case "bytecount":
 		// bytecount(s, b): number of elements of byte slice s equal to b
 		if len(x.Args) != 2 {
